@@ -31,6 +31,8 @@ type Scenario struct {
 	PerPath int64   `json:"perPath"` // 0 = unlimited
 	Paths   []int   `json:"paths"`   // path index of every request
 	Events  []Event `json:"events"`
+	// Obs: bit i set = request i goes through DoObserve instead of Do (the limiter guards both)
+	Obs uint `json:"obs,omitempty"`
 }
 
 type reqState struct {
@@ -79,7 +81,11 @@ func Exec(t *testing.T, sc Scenario) *evid.Failure {
 			mu.Unlock()
 			return nil, err
 		}
-		l := limitparallelrequests.New(sc.Total, sc.PerPath, do, nil)
+		doObserve := func(req *pool.Message, _ func(*pool.Message)) (limitparallelrequests.Observation, error) {
+			_, err := do(req)
+			return nil, err
+		}
+		l := limitparallelrequests.New(sc.Total, sc.PerPath, do, doObserve)
 		arrive := func(i int) {
 			ctx, cancel := context.WithCancel(context.Background())
 			cancels[i] = cancel
@@ -94,7 +100,12 @@ func Exec(t *testing.T, sc Scenario) *evid.Failure {
 			st[i].arrived, st[i].arriveSeq = true, arriveCounter
 			mu.Unlock()
 			go func() {
-				_, err := l.Do(m)
+				var err error
+				if sc.Obs&(1<<uint(i)) != 0 {
+					_, err = l.DoObserve(m, nil)
+				} else {
+					_, err = l.Do(m)
+				}
 				mu.Lock()
 				st[i].returned, st[i].err = true, err
 				mu.Unlock()
@@ -438,7 +449,7 @@ func exhaustive(t *testing.T, n int) evid.Engine {
 					}
 					for _, p := range paths {
 						for _, lim := range limits {
-							ch <- Scenario{Total: lim[0], PerPath: lim[1], Paths: p, Events: evs}
+							ch <- Scenario{Total: lim[0], PerPath: lim[1], Paths: p, Events: evs, Obs: 0xAAAA} // odd requests use DoObserve
 						}
 					}
 				})
@@ -457,6 +468,7 @@ func gen(t *rapid.T) Scenario {
 	for i := 0; i < n; i++ {
 		sc.Paths = append(sc.Paths, rapid.IntRange(0, 2).Draw(t, "path"))
 	}
+	sc.Obs = uint(rapid.IntRange(0, 1<<n-1).Draw(t, "obs"))
 	// a random interleaving of the chains
 	next := make([]int, n) // 0: arrive, 1: cancel/finish, 2: finish, 3: done
 	cancels := make([]bool, n)
@@ -500,7 +512,7 @@ func TestCheck(t *testing.T) {
 		return f
 	})
 	r.Main(evid.Meta{
-		Rule:        "the limiter built with (total, per-path) limits from {1,2,unlimited}, the wrapped do blocking on a per-request gate and keeping in-flight gauges; events {arrive(i,path), cancel(i), finish(i)} executed one at a time in a synctest bubble with quiescence after each; exhaustive: every event order for 3 requests (4 in the thorough tier) x every cancel subset x path assignments x 7 limit pairs; random: 4-7 requests over 3 paths. Oracle at every quiescent point: in-flight <= total limit and <= per-path limit per path; a waiter cancelled while waiting returns its context error and never runs; no waiter exists while both limits have room for it (no lost slot); the per-path queue (verif accessor) holds exactly the latest arrivals among the pending requests of its path and nobody who arrived after a queued request has run (FIFO admission; with no total limit also: entry into do() follows arrival order across steps); finally every call has returned, a probe on every path is admitted at once, and no limiter goroutine is left. stress: 3-32 real goroutines (no virtual clock) released together on 3 paths, cancelling after 0-400 us, 40 repetitions per pattern; the gauges inside do() give the maximum ever in flight, afterwards the queue table (verif accessor) is empty and a probe on each path runs at once. Non-trivial = a cancel of a request queued behind another one (finite limits); distinct by scenario",
+		Rule:        "the limiter built with (total, per-path) limits from {1,2,unlimited}, the wrapped do / doObserve blocking on a per-request gate and keeping in-flight gauges (requests go through Do or DoObserve: odd ones in the exhaustive engine, a generated subset in the random one); events {arrive(i,path), cancel(i), finish(i)} executed one at a time in a synctest bubble with quiescence after each; exhaustive: every event order for 3 requests (4 in the thorough tier) x every cancel subset x path assignments x 7 limit pairs; random: 4-7 requests over 3 paths. Oracle at every quiescent point: in-flight <= total limit and <= per-path limit per path; a waiter cancelled while waiting returns its context error and never runs; no waiter exists while both limits have room for it (no lost slot); the per-path queue (verif accessor) holds exactly the latest arrivals among the pending requests of its path and nobody who arrived after a queued request has run (FIFO admission; with no total limit also: entry into do() follows arrival order across steps); finally every call has returned, a probe on every path is admitted at once, and no limiter goroutine is left. stress: 3-32 real goroutines (no virtual clock) released together on 3 paths, cancelling after 0-400 us, 40 repetitions per pattern; the gauges inside do() give the maximum ever in flight, afterwards the queue table (verif accessor) is empty and a probe on each path runs at once. Non-trivial = a cancel of a request queued behind another one (finite limits); distinct by scenario",
 		Assumptions: []string{"events are applied one at a time, so at a quiescent point a request is either waiting or running: the 'either outcome' tolerance for simultaneous admission and cancellation is not needed"},
 		Floor:       500,
 	}, exhaustive(t, 3), random, stressEngine(r))
